@@ -805,6 +805,78 @@ def r5_reflexive(ctx, sym):
     ctx.floor('R5', 'is_subtype overrides', n, 8)
 
 
+def r6_lattice_executed(ctx, sym):
+    ctx.rule('R6', "pedal's own type classes executed abstractly (constructors, get_pedal_type_from_value, the module "
+                   "function is_subtype, StrType.allows_membership): (a) the type computed for tuple, int, float and bool "
+                   "values is a subtype of itself and of the normalised form of the value's Python type "
+                   "(TYPE_STRINGS[name]().as_type()), tuples of any length and nesting included; (b) an empty list or "
+                   "set is not a subtype of an unrelated type, so `[] in 'ab'` - a TypeError in CPython - is not "
+                   "accepted by the membership check")
+    from .. import symexec, fdeval as _fdeval
+    from ..fdeval import Obj, Raised, Inconclusive
+    nmod = ctx.repo.module(NORM)
+    tmod = ctx.repo.module(TYPES)
+
+    def class_of(o):
+        cd = o.attrs.get('__classdef__')
+        return sym.classes.get((cd._module.name, cd._qualname)) if cd is not None else None
+
+    def b_type(o):
+        return o.attrs['__classdef__'] if isinstance(o, Obj) and '__classdef__' in o.attrs else type(o)
+
+    def b_isinstance(o, t):
+        ts = t if isinstance(t, tuple) else (t,)
+        ts = tuple(type if (x is _fdeval._BUILTINS.get('type') or x is b_type) else x for x in ts)
+        if isinstance(o, Obj) and '__classdef__' in o.attrs:
+            mro = list(sym.mro(class_of(o)))
+            return any(getattr(x, '_fd_class', None) is not None and any(k is x._fd_class for k in mro) for x in ts)
+        return any(isinstance(x, type) and isinstance(o, x) for x in ts)
+
+    def evaluate(expr, mod):
+        fn = ast.parse("def _expression():\n    return %s" % expr).body[0]
+        fn._module, fn._qualname = mod, '_expression'
+        fd = symexec.new_fd(sym, mod, calls={'isinstance': b_isinstance, 'type': b_type}, max_steps=400000)
+        try:
+            return fd.call_function(fn, [])
+        except Raised as e:
+            return 'raises %s' % e.kind
+        except Inconclusive as e:
+            raise AnalysisError("C19 R6: %s is outside the decidable fragment: %s" % (expr, e))
+
+    def subtype(a, b):
+        fd = symexec.new_fd(sym, tmod, calls={'isinstance': b_isinstance, 'type': b_type}, max_steps=400000)
+        try:
+            return fd.call_function(tmod.func('is_subtype'), [a, b])
+        except Raised as e:
+            return 'raises %s' % e.kind
+        except Inconclusive as e:
+            raise AnalysisError("C19 R6: is_subtype is outside the decidable fragment: %s" % e)
+    ctx.analysed_function(tmod, tmod.func('is_subtype'))
+    ctx.analysed_function(nmod, nmod.func('get_pedal_type_from_value'))
+    values = [(1, 'a'), (), (1,), (1, (2, 'b')), (1.5, True, 'x'), ((), ()), 5, 0, 2.5, True, False]
+    for v in values:
+        t = evaluate("get_pedal_type_from_value(%r)" % (v,), nmod)
+        n = evaluate("TYPE_STRINGS[%r]().as_type()" % (type(v).__name__,), nmod)
+        for what, other in (('itself', t), ('the normalised %s type' % type(v).__name__, n)):
+            got = subtype(t, other) if isinstance(t, Obj) and isinstance(other, Obj) else 'no type (%r, %r)' % (t, other)
+            ctx.check(got is True, 'R6', 'value-type[%r]:subtype-of-%s' % (v, what.split()[0]), tmod,
+                      tmod.func('is_subtype'),
+                      "the pedal type of the value %r is %s a subtype of %s (is_subtype gives %r)" % (
+                          v, 'not' if got is False else 'not decidably', what, got),
+                      "assert_type((1, 'a'), tuple) fails; a repeated tuple does not conform to its inferred type")
+    lattice = [("is_subtype(ListType(True), StrType(False))", False), ("is_subtype(SetType(True), IntType())", False),
+               ("is_subtype(ListType(True), TupleType([]))", False), ("is_subtype(ListType(True), ListType(True))", True),
+               ("StrType(False).allows_membership(ListType(True))", False),
+               ("StrType(False).allows_membership(ListType(False, IntType()))", False),
+               ("StrType(False).allows_membership(SetType(True))", False),
+               ("StrType(False).allows_membership(StrType(False))", True)]
+    for expr, want in lattice:
+        got = evaluate(expr, tmod)
+        ctx.check(got is want, 'R6', 'lattice:%s' % expr, tmod, tmod.func('is_subtype'),
+                  "%s is %r, expected %r" % (expr, got, want),
+                  "a = []; b = 'ab'; a in b - CPython raises TypeError, TIFA reports nothing")
+
+
 THOROUGH_REPS = {
     int: [0, 1, -2, 7, 3, -1, 12],
     float: [0.5, -8.0, 2.0, 1.5, -0.0, 3.0],
@@ -827,6 +899,7 @@ def run(ctx):
     r4_value_typing(ctx, sym)
     r4e_value_typing_executed(ctx, sym)
     r5_reflexive(ctx, sym)
+    r6_lattice_executed(ctx, sym)
     ctx.assume("representative values per core type are a frozen list (REPS); CPython's operator module is the "
                "oracle and runs builtins only, never pedal")
     ctx.assume("expression trees deeper than one operator are covered through compositionality of the table only")
